@@ -4,6 +4,7 @@ import (
 	"fmt"
 
 	jwt "github.com/nats-io/jwt/v2"
+	v1 "github.com/nats-io/jwt/v2/v1compat"
 	"github.com/nats-io/nkeys"
 )
 
@@ -206,11 +207,73 @@ func runC08(c *Ctx) {
 			}
 		}
 	}
+	// ---------- the claim itself arrives as a token: user / activation claims issued by the identity key, a plain
+	// and a scoped signing key, another account's key; issuer account empty / this / another account; encoded by
+	// the v2 encoder and by the bundled v1 encoder, decoded by the v2 decoder, then handed to the account
+	{
+		ac := jwt.NewAccountClaims(A)
+		ac.SigningKeys.Add(K1)
+		us := jwt.NewUserScope()
+		us.Key = K2
+		ac.SigningKeys.AddScopedSigner(us)
+		keys := ac.SigningKeys.Keys()
+		signers := map[string]nkeys.KeyPair{A: akp, K1: k1kp, K2: k2kp, AX: axkp, B: bkp}
+		for iss, kp := range signers {
+			for _, ia := range []string{"", A, B} {
+				for _, kind := range []string{"user", "activation"} {
+					for _, enc := range []string{"v2", "v1"} {
+						sub := U
+						if kind == "activation" {
+							sub = B
+						}
+						var tok string
+						var err error
+						switch {
+						case enc == "v2" && kind == "user":
+							x := jwt.NewUserClaims(sub)
+							x.IssuerAccount = ia
+							tok, err = x.Encode(kp)
+						case enc == "v2":
+							x := jwt.NewActivationClaims(sub)
+							x.IssuerAccount, x.ImportSubject, x.ImportType = ia, "a.b", jwt.Stream
+							tok, err = x.Encode(kp)
+						case kind == "user":
+							x := v1.NewUserClaims(sub)
+							x.IssuerAccount = ia
+							tok, err = x.Encode(kp)
+						default:
+							x := v1.NewActivationClaims(sub)
+							x.IssuerAccount, x.ImportSubject, x.ImportType = ia, "a.b", v1.Stream
+							tok, err = x.Encode(kp)
+						}
+						if err != nil {
+							panic(err)
+						}
+						cl, err := jwt.Decode(tok)
+						if err != nil {
+							panic(err)
+						}
+						got := ac.DidSign(cl)
+						want := iss == A || (ia == A && contains(keys, iss))
+						inp := map[string]interface{}{"entity": "account", "claim_arrived_as": enc + " token", "kind": kind,
+							"issuer": nameOf(iss, A, K1, K2, AX, B), "issuer_account": nameOf(ia, A, B), "impl": got, "spec": want}
+						c.sum.Evaluations++
+						c.sum.ImplChecks++
+						if got != want {
+							c.violation("account DidSign differs from the trust rule for a claim decoded from a "+enc+" token", inp)
+						}
+						wa.add(fmt.Sprintf("(%s, %s, %s, %s)", coqStr(A), coqStrList(keys), claimCoq(kind, cl.Claims().Issuer, cl.Claims().Subject, ia), coqBool(got)), inp)
+						c.count("claim_from_" + enc + "_token")
+					}
+				}
+			}
+		}
+	}
 	wo.flush()
 	wa.flush()
 	c.sum.Exhaustive = true
 	c.sum.DistinctNontriv = len(distinct)
-	c.sum.Rule = "full cross product: operator {strict} x {identity key also listed} x {signing keys or none} x {before/after encode-decode} x issuer {identity, listed key, unlisted operator key, other operator, account key} x 7 claim kinds x subject {self, other} x issuer-account {empty, set}; account {keys or none} x {round trip} x issuer {identity, plain key, scoped key, unlisted, other account, operator} x 7 kinds x issuer-account {empty, this, other} x subject; real nkeys and claims objects; non-trivial = distinct combination of the decision-relevant coordinates and answer"
+	c.sum.Rule = "full cross product: operator {strict} x {identity key also listed} x {signing keys or none} x {before/after encode-decode} x issuer {identity, listed key, unlisted operator key, other operator, account key} x 7 claim kinds x subject {self, other} x issuer-account {empty, set}; account {keys or none} x {round trip} x issuer {identity, plain key, scoped key, unlisted, other account, operator} x 7 kinds x issuer-account {empty, this, other} x subject; real nkeys and claims objects; user / activation claims additionally arriving as v2 and as v1 tokens (all signer x issuer-account combinations); non-trivial = distinct combination of the decision-relevant coordinates and answer"
 }
 
 func nameOf(v string, names ...string) string {
